@@ -221,7 +221,8 @@ def json_kinds(t, root):
         return {"int", "float"}
     if t in ("string", "bytes"):
         return {"str"}
-    return None      # by-name reference: kind of the definition; left to other mutations
+    # by-name reference: the definition is a record (JSON object) or an enum / fixed (JSON string) - both excluded from the wrong defaults
+    return {"obj", "str"} if isinstance(t, str) else None
 
 
 # ------------------------------------------------------------------------------------ C11
@@ -374,7 +375,16 @@ def run_c13(ctx, fa):
                     back = {"ok": True, "v": proj.pv(fa.schemaless_reader(io.BytesIO(data), tree2))}
                 except Exception as e:  # noqa: BLE001
                     back = {"ok": False, "exc": proj.pexc(e)["exc"]}
-                c["enc"].append({"bytes": list(data), "back": back})
+                # ... and with both schemas given: the original as writer schema, its canonical form as reader schema, and the other way round
+                try:
+                    back2 = {"ok": True, "v": proj.pv(fa.schemaless_reader(io.BytesIO(data), raw, tree2))}
+                except Exception as e:  # noqa: BLE001
+                    back2 = {"ok": False, "exc": proj.pexc(e)["exc"]}
+                try:
+                    back3 = {"ok": True, "v": proj.pv(fa.schemaless_reader(io.BytesIO(data), tree2, raw))}
+                except Exception as e:  # noqa: BLE001
+                    back3 = {"ok": False, "exc": proj.pexc(e)["exc"]}
+                c["enc"].append({"bytes": list(data), "back": back, "back2": back2, "back3": back3})
         cases.append(c)
     ctx.rule = ("seeded valid schemas; for each: fastavro's canonical text against AvroCanon!CanonText, re-application to its own output, 1-3 cosmetic "
                 "rewrites (doc, aliases, defaults removed, order, custom and logical attributes, attribute order, name spelling, dict-form primitives), "
